@@ -361,9 +361,72 @@ func body(c *hk.Ctx) {
 	}
 	c.NonTrivial = len(wf.Tasks) > 0
 	checkC02(c, s, sc, wf, prop)
+	if prop == "C10" {
+		checkRunEvents(c, envID, wf)
+	}
 }
 
-// expected outcome of a transition: success iff every critical ACTIVE task acknowledged it
+// checkRunEvents (C10 through the whole core, where the real StartActivity / StopActivity /
+// GoError transition bodies and the teardown run). A run event is published exactly when one of
+// the four run timestamps is set, so the events of one environment tell how often they were set:
+// after the start of a run there must be, however the run ends (stop, error, failed start,
+// teardown while running), exactly two further events before the next run starts: the start and
+// the completion of its end. (Their status field is not used: the teardown publishes both as
+// STARTED.)
+func checkRunEvents(c *hk.Ctx, envID string, wf *wfSpec) {
+	// a critical hook failing at leave_RUNNING cancels STOP_ACTIVITY and refuses the GO_ERROR that
+	// follows as well: the run then ends through the forced ERROR state (listed known finding)
+	refusedGoError := false
+	for _, t := range wf.Tasks {
+		if t.Hook == "leave_RUNNING" && t.Critical && t.HookEnd != "" {
+			refusedGoError = true
+		}
+	}
+	evMu.Lock()
+	evs := append([]evRec(nil), events...)
+	evMu.Unlock()
+	type run struct {
+		no      uint32
+		ends    int
+		endedBy []string
+	}
+	var cur *run
+	n := 0
+	finish := func() {
+		if cur == nil {
+			return
+		}
+		if cur.ends != 2 && refusedGoError {
+			c.Violate("end-timestamps", "forced-error-after-refused-GO_ERROR", "run %d of environment %s ended through the forced ERROR state (STOP_ACTIVITY and GO_ERROR both cancelled by a critical hook at leave_RUNNING): %d end-of-run events instead of 2", cur.no, envID, cur.ends)
+		} else if cur.ends != 2 {
+			c.Violate("end-of-run-timestamps", fmt.Sprintf("end-events=%d:%s", min(cur.ends, 3), strings.Join(cur.endedBy, "+")),
+				"run %d of environment %s: %d end-of-run events (start / completion of the end of run) were published, by %v; each of the two end timestamps is to be set exactly once however the run ends", cur.no, envID, cur.ends, cur.endedBy)
+		}
+		cur = nil
+	}
+	for _, e := range evs {
+		if !e.runEv || e.env != envID {
+			continue
+		}
+		c.Debugf("run event %s %s rn=%d state=%s", e.trans, e.status, e.run, e.state)
+		switch {
+		case e.trans == "START_ACTIVITY" && e.status == "STARTED":
+			finish()
+			cur = &run{no: e.run}
+			n++
+		case e.trans == "START_ACTIVITY":
+			// completion of the start (ok or error)
+		case cur != nil:
+			cur.ends++
+			cur.endedBy = append(cur.endedBy, e.trans)
+		}
+	}
+	finish()
+	if n > 0 {
+		c.Count("probe.runs_with_events")
+	}
+}
+
 func checkC02(c *hk.Ctx, s *sys, sc *scenario, wf *wfSpec, prop string) {
 	viol := func(p, oracle, sig, format string, a ...any) {
 		if p == prop {
